@@ -40,10 +40,11 @@ def maskPosFrom : Nat → List Bool → List Nat
 def maskPos (mask : List Bool) : List Nat := maskPosFrom 0 mask
 
 /-- `DenseFunctionalData.__getitem__` / `BasisFunctionalData.__getitem__` with a boolean index array:
-the mask must have exactly one entry per observation (`IndexError` otherwise); the rows whose entry
-is `True` are kept, in order. -/
+the mask must have exactly one entry per observation (`IndexError` otherwise; NumPy lets an *empty*
+boolean array through, selecting nothing); the rows whose entry is `True` are kept, in order. -/
 def denseGetMask (rows : List α) (mask : List Bool) : Except Err (List α) :=
-  if mask.length = rows.length then .ok (pick rows (maskPos mask)) else .error .indexError
+  if mask.isEmpty then .ok []
+  else if mask.length = rows.length then .ok (pick rows (maskPos mask)) else .error .indexError
 
 /-- The labels selected by an index: `labels = list(argvals.keys())`, then
 `labels[index]` (slice), `[labels[int(o)] for o in index]` (array) or
@@ -155,6 +156,15 @@ def Comp.get (c : Comp α) (ix : Index) : Except Err (Comp α) :=
   | .irreg d => (irregGet d ix).map .irreg
   | .basis rows => (denseGet rows ix).map .basis
 
+/-- A boolean index array on one component.  Dense / basis data: NumPy mask semantics.  Irregular
+data as coded: `[labels[int(o)] for o in index]` reads the booleans as the integers 0 / 1 (mirrored,
+not judged: boolean masks are outside the property's index kinds for irregular data). -/
+def Comp.getMask (c : Comp α) (mask : List Bool) : Except Err (Comp α) :=
+  match c with
+  | .dense rows => (denseGetMask rows mask).map .dense
+  | .basis rows => (denseGetMask rows mask).map .basis
+  | .irreg d => (irregGet d (.arr (mask.map fun b => if b then 1 else 0))).map .irreg
+
 def allEqNat : List Nat → Bool
   | [] => true
   | a :: t => t.all fun b => b == a
@@ -227,6 +237,24 @@ inductive Obj (α : Type)
   | uni (c : Comp α)
   | multi (cs : List (Comp α))
   deriving Repr
+
+def getMaskComps (mask : List Bool) : List (Comp α) → Except Err (List (Comp α))
+  | [] => .ok []
+  | c :: cs =>
+    match c.getMask mask with
+    | .error e => .error e
+    | .ok g =>
+      match getMaskComps mask cs with
+      | .error e => .error e
+      | .ok gs => .ok (g :: gs)
+
+def Obj.getMask (x : Obj α) (mask : List Bool) : Except Err (Obj α) :=
+  match x with
+  | .uni c => (c.getMask mask).map .uni
+  | .multi cs =>
+    match getMaskComps mask cs with
+    | .error e => .error e
+    | .ok gs => if allEqNat (gs.map Comp.nObs) then .ok (.multi gs) else .error .valueError
 
 def Obj.get (x : Obj α) (ix : Index) : Except Err (Obj α) :=
   match x with
